@@ -79,6 +79,7 @@ type InRes struct {
 	WriterFaults int
 	RandCalls  int
 	NowCalls   int
+	SleepCalls int
 }
 
 // Key is what equivalence oracles compare: output, echo, outcome class (never message text).
@@ -125,13 +126,13 @@ func (s *Session) arm(f *core.Fault) {
 func (s *Session) Input(text string, f *core.Fault) InRes {
 	s.arm(f)
 	w := s.W
-	r0, n0 := w.RandCalls, w.NowCalls
+	r0, n0, sl0 := w.RandCalls, w.NowCalls, w.SleepCalls
 	wf0 := s.Out.Faulted
 	cont, panicked, errs, formatted := repl.EvalOne(context.Background(), s.St, text, s.Echo, s.Opts)
 	res := InRes{
 		Cont: cont, Panicked: panicked, Errs: errs, Formatted: formatted,
 		Ticks: w.inTicks, Fired: w.fired, TicksAfter: w.ticksAfter, BudgetHit: w.BudgetHit,
-		RandCalls: w.RandCalls - r0, NowCalls: w.NowCalls - n0,
+		RandCalls: w.RandCalls - r0, NowCalls: w.NowCalls - n0, SleepCalls: w.SleepCalls - sl0,
 		WriterFaults: s.Out.Faulted - wf0,
 	}
 	res.Out = s.Out.Take()
